@@ -176,7 +176,23 @@ pub fn event(id: u64, input: &str, rng: &mut Rng, secs: u64, full: bool, light: 
                 .filter(|(_, t)| (-200_000..=200_000).contains(&chrono::Datelike::year(&t.date())))
                 .cloned()
                 .collect();
-            eval_naive(&mut calls, &format!("tz:{}@{:?}", tz.name(), coords), &located, &tz_insts[..tz_insts.len().min(5)], secs, move |n| {
+            // wall-clock instants in the hours before the zone's largest clock change (Apia and Kwajalein skip a whole day)
+            // and before one of its ordinary transitions
+            let mut tz_insts = tz_insts;
+            tz_insts.truncate(4);
+            let trans = crate::t_tz::transitions(tz);
+            if let Some((at, _)) = trans.iter().enumerate().max_by_key(|(i, t)| if *i == 0 { 0 } else { (t.1 - trans[*i - 1].1).abs() }).map(|(_, t)| *t) {
+                for (k, h) in [5i64, 29, 1].iter().enumerate() {
+                    let local = chrono::TimeZone::from_utc_datetime(&tz, &(at - Duration::hours(*h))).naive_local();
+                    tz_insts.push((format!("bigjump-{k}"), local));
+                }
+            }
+            if !trans.is_empty() {
+                let (at, _) = trans[rng.below(trans.len() as u64) as usize];
+                let local = chrono::TimeZone::from_utc_datetime(&tz, &(at - Duration::minutes(90))).naive_local();
+                tz_insts.push(("transition-90min".to_string(), local));
+            }
+            eval_naive(&mut calls, &format!("tz:{}@{:?}", tz.name(), coords), &located, &tz_insts[..tz_insts.len().min(8)], secs, move |n| {
                 tz.from_local_datetime(&n).earliest().or_else(|| tz.from_local_datetime(&(n + Duration::hours(2))).earliest())
             });
         }
@@ -232,7 +248,8 @@ pub fn record(args: &Args) {
     for key in ["cases", "extremes"] {
         if let Some(path) = args.opt.get(key) {
             for (i, c) in read_ndjson(path).iter().enumerate() {
-                let keep = if key == "extremes" { (i as u64 + seed) % extremes_every == 0 } else { (i as u64 + seed) % every == 0 };
+                // the boundary-date family of Gen_Grammar is always included
+                let keep = if key == "extremes" { (i as u64 + seed) % extremes_every == 0 } else { c["family"] == "edge" || (i as u64 + seed) % every == 0 };
                 if keep {
                     inputs.push(c["text"].as_str().unwrap().to_string());
                 }
